@@ -232,3 +232,137 @@ Lemma abort_leak_witness_repaired :
   | None => False
   end.
 Proof. vm_compute. repeat split; reflexivity. Qed.
+
+(* ------------------------------------------------------------------ Client.Abort reaches every pending call *)
+(* every call between LBegin and LEnd is registered in Client.cancelFuncs, or its context is already done *)
+Definition reg_ok (st : state) : Prop :=
+  forall k cl, nth_error (callers st) k = Some cl -> started (pc cl) = true ->
+    mem_nat k (cancels st) = true \/ cancelled cl = true.
+
+Lemma mem_nat_remove_other k j l : k <> j -> mem_nat k (remove_nat j l) = mem_nat k l.
+Proof.
+  intros Hne. induction l as [|x r IH]; [reflexivity|]. cbn [remove_nat mem_nat].
+  destruct (Nat.eqb x j) eqn:E.
+  - apply Nat.eqb_eq in E. subst x. rewrite IH.
+    destruct (Nat.eqb j k) eqn:E2; [apply Nat.eqb_eq in E2; congruence|reflexivity].
+  - cbn [mem_nat]. rewrite IH. reflexivity.
+Qed.
+
+Lemma reg_ok_step g st l st' : reg_ok st -> step g st l = Some st' -> reg_ok st'.
+Proof.
+  intros I H. unfold reg_ok in *.
+  destruct l; try destruct w; step_cases' H; intros xk xcl Hc Hs; unfold exit_update in *; norm; from_inv.
+  all: try (apply (I _ _ Hc Hs); fail).
+  all: pc_rw; proj_simpl; try discriminate.
+  all: try (right; reflexivity).
+  all: try (match goal with E : nth_error (callers _) _ = Some ?c |- _ => apply (I _ _ E); pc_rw; reflexivity end; fail).
+  1: { left. cbn [mem_nat]. rewrite Nat.eqb_refl. reflexivity. }
+  1: { destruct (I _ _ Hc Hs) as [X|X]; [left; cbn [mem_nat]; rewrite X; apply orb_true_r|right; exact X]. }
+  all: try (match goal with E : nth_error (callers _) _ = Some ?c |- _ \/ cancelled ?c = true =>
+              apply (I _ _ E); destruct (pc c); try discriminate; reflexivity end).
+  1: { rewrite (mem_nat_remove_other _ _ _ Eq). apply (I _ _ Hc Hs). }
+  1-3: (rewrite H0; apply (I _ _ Hc Hs)).
+  right. destruct H2 as [[H2 Hm]|[H2 _]]; [|exact H2]. cbn [Nat.add] in Hm.
+  destruct (I _ _ Hc Hs) as [X|X]; congruence.
+Qed.
+
+Lemma reg_ok_run g : forall tr st st', reg_ok st -> run g st tr = Some st' -> reg_ok st'.
+Proof.
+  induction tr as [|l tr IH]; intros st st' I H; cbn [run] in H.
+  - inversion H; subst. exact I.
+  - destruct (step g st l) as [st1|] eqn:E; [|discriminate]. apply (IH st1 st' (reg_ok_step _ _ _ _ I E) H).
+Qed.
+
+Lemma reg_ok_init ts : reg_ok (init ts).
+Proof. intros k cl H S. cbn in H. apply nth_map_init in H. destruct H as [H _]. rewrite H in S. discriminate. Qed.
+
+(* C10_abort_cancels_every_pending_call: whatever the schedule, right after the first half of Client.Abort the
+   context of EVERY call between Client.Transport's registration and its deferred removal is done, and the list
+   of cancel functions is empty *)
+Theorem abort_cancels_every_pending_call : forall g ts tr st st',
+  run g (init ts) tr = Some st -> step g st LAbortCancel = Some st' ->
+  cancels st' = [] /\
+  forall k cl, nth_error (callers st') k = Some cl -> started (pc cl) = true -> cancelled cl = true.
+Proof.
+  intros g ts tr st st' H S. pose proof (reg_ok_run g tr _ _ (reg_ok_init ts) H) as I.
+  cbn [step] in S. injection S as <-. split; [reflexivity|].
+  intros k cl Hc Hs. proj_simpl. apply cancel_from_inv in Hc.
+  destruct Hc as (ocl & Hc & Hp & _ & _ & [[Hx Hm]|[Hx _]]); [|exact Hx].
+  cbn [Nat.add] in Hm. rewrite Hp in Hs. destruct (I _ _ Hc Hs) as [X|X]; congruence.
+Qed.
+
+(* ... and a call whose context is done has a completing step enabled, on every kind of transport: *)
+Theorem cancelled_call_can_return : forall g st k cl,
+  refs_ok st -> nth_error (callers st) k = Some cl -> cancelled cl = true ->
+  (pc cl = CDirect -> exists st', step g st (LDirectCancel k) = Some st') /\
+  (forall c i, waiting_at (pc cl) = Some (c, i) -> exists st', step g st (LCancelDel k) = Some st').
+Proof.
+  intros g st k cl R Hk Hc. split.
+  - intros Hp. cbn [step]. rewrite Hk, Hp, Hc. eexists. reflexivity.
+  - intros c i Hw. cbn [step]. rewrite Hk, Hw, Hc.
+    assert (Hl : (c < length (conns st))%nat) by (apply (R _ _ c i Hk); apply (waiting_active _ _ _ Hw)).
+    destruct (nth_error (conns st) c) as [cn|] eqn:E; [eexists; reflexivity|].
+    apply nth_error_None in E. lia.
+Qed.
+
+Lemma refs_ok_run g : forall tr st st', refs_ok st -> run g st tr = Some st' -> refs_ok st'.
+Proof.
+  induction tr as [|l tr IH]; intros st st' I H; cbn [run] in H.
+  - inversion H; subst. exact I.
+  - destruct (step g st l) as [st1|] eqn:E; [|discriminate]. apply (IH st1 st' (refs_ok_step _ _ _ _ I E) H).
+Qed.
+
+Lemma refs_ok_init ts : refs_ok (init ts).
+Proof. intros k cl c i H A. cbn in H. apply nth_map_init in H. destruct H as [H _]. rewrite H in A. discriminate. Qed.
+
+(* ------------------------------------------------------------------ the pool identity rule *)
+(* onExit of connection c removes c and nothing else from the pool *)
+Theorem onexit_spares_other_connections : forall g st w c c' st',
+  step g st (LOnExit w) = Some st' -> who_conn st w = Some c -> pool st = Some c' -> c' <> c -> pool st' = Some c'.
+Proof.
+  intros g st w c c' st' H Hw Hp Hne.
+  destruct w as [x|x|j]; cbn [step] in H; [| |discriminate];
+    cbn [who_conn] in Hw; inversion Hw; subst x;
+    destruct (who_pc st _) as [[err| | |]|]; try discriminate;
+    cbn [who_conn] in H; destruct (nth_error (conns st) c) as [cn|]; try discriminate;
+    rewrite Hp in H; (destruct (Nat.eqb c' c) eqn:E; [apply Nat.eqb_eq in E; contradiction|]);
+    injection H as <-; unfold exit_update; proj_simpl; exact Hp.
+Qed.
+
+(* the pooled connection is intact: never unpooled, its socket not closed by the client, its context not cancelled *)
+Theorem pooled_connection_is_intact : forall g ts tr st c cn,
+  run g (init ts) tr = Some st -> pool st = Some c -> nth_error (conns st) c = Some cn ->
+  kunpooled cn = false /\ ksock cn = false /\ kcancel cn = false.
+Proof.
+  intros g ts tr st c cn H Hp Hc. pose proof (inv_pool_run g tr _ _ (inv_pool_init ts) H) as I.
+  destruct (p_pool _ I _ Hp) as (cn' & Hc' & Hu). rewrite Hc in Hc'. inversion Hc'; subst cn'.
+  destruct (p_sock _ I _ _ Hc) as [S1 S2]. repeat split; [exact Hu| |].
+  - destruct (ksock cn); [rewrite S1 in Hu by reflexivity; discriminate|reflexivity].
+  - destruct (kcancel cn); [rewrite S2 in Hu by reflexivity; discriminate|reflexivity].
+Qed.
+
+(* ------------------------------------------------------------------ every connection that left the pool gets closed *)
+Definition unpooled_ok (st : state) : Prop :=
+  forall c cn, nth_error (conns st) c = Some cn -> kunpooled cn = true ->
+    ksock cn = true \/ closer_pending st c cn = true.
+
+Lemma unpooled_ok_step g st l st' : inv_watch st -> inv_pool st -> unpooled_ok st -> step g st l = Some st' -> unpooled_ok st'.
+Proof.
+  intros W P I H. unfold unpooled_ok in *.
+  destruct l; try destruct w; step_cases' H; intros xc xcn Hc Hu; unfold exit_update in *; norm.
+  all: try (apply (I _ _ Hc Hu); fail).
+  all: try discriminate.
+  all: try (left; reflexivity).
+  all: try (match goal with E : nth_error (conns _) _ = Some ?cn |- _ =>
+              pose proof (w_ctx _ W _ _ E) as Wc; pose proof (proj2 (p_sock _ P _ _ E)) as Ps;
+              pose proof (I _ _ E) as U; unfold closer_pending in *; proj_simpl;
+              repeat match goal with Ex : ksender _ = _ |- _ => rewrite Ex in * end;
+              repeat match goal with Ex : kreceiver _ = _ |- _ => rewrite Ex in * end;
+              repeat match goal with Ex : kunpooled _ = _ |- _ => rewrite Ex in * end;
+              cbn [is_closer negb andb orb] in *;
+              match goal with |- context [existsb ?f (aborters ?s)] => destruct (existsb f (aborters s)) | _ => idtac end;
+              destruct (kcancel cn); destruct (kunpooled cn); destruct (ksock cn);
+              destruct (ksender cn) as [| |[[]| | |]]; destruct (kreceiver cn) as [| |[[]| | |]];
+              cbn in *; try discriminate; intuition (try discriminate; try congruence) end; fail).
+  Show.
+Abort.
